@@ -136,6 +136,13 @@ def check(run, driver):
         n, L = 4, 3
         data = rng.standard_normal((int(rng.integers(L + 4, L + n * L + 2)), n))
         probes.append(("gaussian", method, data, dict(method=method, information="gaussian", max_lag=L, n_shuffles=5, alpha_forward=0.1, alpha_backward=0.1)))
+    # ... and the same branch on strongly collinear, large-scale series (a common random-walk factor, units of 1e3): the coordinate descent
+    #     stops on its iteration cap there, where "try again" code paths live
+    for method in ("lasso", "information_lasso"):
+        n, L = 4, 3
+        T_ = int(rng.integers(L + 6, L + n * L + 2))
+        data = (np.cumsum(rng.standard_normal((T_, 1)), axis=0) + 0.01 * rng.standard_normal((T_, n))) * 1e3
+        probes.append(("gaussian", method, data, dict(method=method, information="gaussian", max_lag=L, n_shuffles=5, alpha_forward=0.1, alpha_backward=0.1)))
     fresh_spec = [{"data": p[2].tolist(), "kw": p[3]} for p in probes]
     env = dict(os.environ)
     pr = subprocess.run([sys.executable, "-c", FRESH % str(REPO)], input=json.dumps(fresh_spec), capture_output=True, text=True, env=env)
@@ -233,6 +240,9 @@ def check(run, driver):
         data = make_data(info, rng, n, T)
         if info == "poisson" or it % 4 == 0 or it < 5:
             data = np.round(data * (1 if info == "poisson" else (50 if it < 5 else 4)))   # integer-valued numbers: int and float presentations exist
+        if info in ("knn", "geometric_knn") and it < 10:
+            # tie-free integers (per-column ranks, in units of 3): the neighbour estimators are defined there, and integers are integers
+            data = (np.argsort(np.argsort(make_data(info, rng, n, T), axis=0), axis=0) * 3 + 1).astype(float)
         kw = dict(method=method, information=info, max_lag=int(rng.integers(1, 3)), n_shuffles=6, alpha_forward=0.1, alpha_backward=0.1, k_means=3)
         labels = [f"col{c}" for c in range(n)]
         pres = {"ndarray-C": np.ascontiguousarray(data), "ndarray-F": np.asfortranarray(data), "nested-lists": data.tolist(),
